@@ -144,6 +144,8 @@ def correspond(ctx, exe, n_specs, files=True):
         if files:
             for path, mesh in orc.shipped_files(ctx.repo):
                 if isinstance(mesh, tuple): mesh = ''
+                if not ctx.thorough and os.path.getsize(path) > 1000000:
+                    dist['shipped-file-left-to-thorough-tier'] += 1; continue      # ~50 s each through the extracted reader
                 got = impl_read(path, mesh)
                 if got is None: continue
                 pd = os.path.splitext(path)[0] + '.pdat'
